@@ -5,6 +5,7 @@ import ReuseVerif.Lemmas.CopyrightMain
 import ReuseVerif.Lemmas.Merge
 import ReuseVerif.Lemmas.C20NoNotice
 import ReuseVerif.Lemmas.C20MergeLines
+import ReuseVerif.Lemmas.C20GetYear
 
 namespace C20
 open Py Model Spec
@@ -447,6 +448,88 @@ example : ∀ n ∈ [
     refine ⟨by simp [prefixShapes], by decide, ?_, by decide⟩ <;>
     simp [WFHolderL, noEndSuffix, hbt, parenStart, hasTag, dashYear, isReSpace, isReDigit, Re.inRanges,
       Generated.spaceRanges, Generated.digitRanges] <;> decide
+
+/-! ### `get_year` (cli/annotate.py): the year an `annotate` run puts into its notices -/
+
+section GetYear
+open Model.AE
+
+/-- **What `get_year` computes** (`Model.AE.yearOf`, the year rule of the composed annotate model):
+    `--exclude-year` gives no year; no `--year` gives the current year; one `--year` gives that
+    value verbatim (any string: nothing validates it); several give `min - max` of the values
+    *as strings* (code point order), both ends being given values — also when all values are
+    equal (`2020 - 2020`). -/
+theorem C20_get_year (w : World) (o : Opts) :
+    (o.excludeYear = true → yearOf w o = none) ∧
+    (o.excludeYear = false → o.years = [] → yearOf w o = some w.curYear) ∧
+    (o.excludeYear = false → ∀ y, o.years = [y] → yearOf w o = some y) ∧
+    (o.excludeYear = false → ∀ y y' ys, o.years = y :: y' :: ys →
+      yearOf w o = some (minText y (y' :: ys) ++ " - ".toList ++ maxText y (y' :: ys)) ∧
+      minText y (y' :: ys) ∈ o.years ∧ maxText y (y' :: ys) ∈ o.years) := by
+  refine ⟨?_, ?_, ?_, ?_⟩
+  · intro h; simp [yearOf, h]
+  · intro h hy; simp [yearOf, h, hy]
+  · intro h y hy; simp [yearOf, h, hy]
+  · intro h y y' ys hy
+    refine ⟨by simp [yearOf, h, hy], ?_, ?_⟩
+    · rw [hy]; exact minText_mem _ _
+    · rw [hy]; exact maxText_mem _ _
+
+/-- **String order = numeric order on four-digit ASCII years.** -/
+theorem C20_year_order_ascii (a b : Text) (ha : asciiYear a = true) (hb : asciiYear b = true) :
+    textLt a b = decide (yearVal a < yearVal b) := textLt_ascii ha hb
+
+/-- Several `--year` values that are four ASCII digits each: the year is the well-formed range
+    `lo - hi` (blank, dash, blank — a year form of the read-back theorem) whose ends are given
+    values and enclose every given value numerically. -/
+theorem C20_get_year_ascii (w : World) (o : Opts) (hex : o.excludeYear = false)
+    (y y' : Text) (ys : List Text) (hy : o.years = y :: y' :: ys) (hall : ∀ t ∈ o.years, asciiYear t = true) :
+    ∃ lo ∈ o.years, ∃ hi ∈ o.years,
+      yearOf w o = (YearForm.range lo true true hi).text ∧ (YearForm.range lo true true hi).wf = true ∧
+      ∀ t ∈ o.years, yearVal lo ≤ yearVal t ∧ yearVal t ≤ yearVal hi := by
+  obtain ⟨_, _, _, h4⟩ := C20_get_year w o
+  obtain ⟨he, hlo, hhi⟩ := h4 hex y y' ys hy
+  refine ⟨_, hlo, _, hhi, ?_, ?_, ?_⟩
+  · rw [he]; simp [YearForm.text]
+  · simp [YearForm.wf, asciiYear_fourDigits (hall _ hlo), asciiYear_fourDigits (hall _ hhi)]
+  · intro t ht
+    rw [hy] at hall ht
+    exact ⟨minText_ascii _ _ hall t ht, maxText_ascii _ _ hall t ht⟩
+
+/-- With four-digit ASCII `--year` values (and a four-digit clock) the year of an `annotate` run is
+    always one of the year forms of the read-back theorem … -/
+theorem C20_get_year_form (w : World) (o : Opts) (hcur : fourDigits w.curYear = true)
+    (hall : ∀ t ∈ o.years, asciiYear t = true) : ∃ yf : YearForm, yf.wf = true ∧ yearOf w o = yf.text := by
+  obtain ⟨h1, h2, h3, _⟩ := C20_get_year w o
+  cases hex : o.excludeYear with
+  | true => exact ⟨.none, rfl, h1 hex⟩
+  | false =>
+    match hy : o.years with
+    | [] => exact ⟨.single w.curYear, hcur, h2 hex hy⟩
+    | [y] => exact ⟨.single y, asciiYear_fourDigits (hall y (by rw [hy]; simp)), h3 hex y hy⟩
+    | y :: y' :: ys =>
+      obtain ⟨lo, _, hi, _, he, hwf, _⟩ := C20_get_year_ascii w o hex y y' ys hy hall
+      exact ⟨_, hwf, he⟩
+
+/-- … hence every notice the run builds for a well-formed holder (`get_reuse_info`:
+    `make_copyright_line(holder, year = get_year(…), prefix)`) is read back by the tool's reader
+    with exactly the prefix, the year `get_year` computed and the holder. -/
+theorem C20_annotate_notice (endRe : Re) (w : World) (o : Opts) (hcur : fourDigits w.curYear = true)
+    (hall : ∀ t ∈ o.years, asciiYear t = true) (x : Text × CPat × Text) (hx : x ∈ prefixShapes)
+    (h : Text) (hw : WFHolderL endRe h = true) (hn : noNoticeInside h = true) :
+    searchLineWith endRe (makeLineWith endRe h (yearOf w o) x.1) =
+      some { pref := x.1, year := yearOf w o, statement := h, whole := makeLineWith endRe h (yearOf w o) x.1 } := by
+  obtain ⟨yf, hwf, he⟩ := C20_get_year_form w o hcur hall
+  rw [he]
+  exact (C20_make_then_parse endRe x hx yf hwf h hw hn).2
+
+/-- outside four-digit years the string order is what the code uses, not the numeric one:
+    `--year 999 --year 2020` gives `2020 - 999`; equal values give a degenerate range -/
+example : minText "999".toList ["2020".toList] = "2020".toList ∧ maxText "999".toList ["2020".toList] = "999".toList ∧
+    minText "2020".toList ["2020".toList] = maxText "2020".toList ["2020".toList] := by decide
+example : asciiYear "2019".toList = true ∧ asciiYear "999".toList = false ∧ asciiYear "２０１６".toList = false := by decide
+
+end GetYear
 
 example : (YearForm.range "2019".toList true true "2021".toList).wf = true := by decide
 example : ("Copyright (C)".toList, CPat.word, " (C)".toList) ∈ prefixShapes := by simp [prefixShapes]
